@@ -30,7 +30,7 @@ var c22Indexes = []string{"C22A", "C22B", "C22C", "C22D", "C22E", "C22F"}
 
 const (
 	c22Unknown     = "C22ZZ"
-	c22Repeats     = 4    // expansions of the same input inside one process
+	c22Repeats     = 8    // expansions of the same input inside one process
 	c22StepBudget  = 4000 // spec look-ups one expansion may need (graphs have <= 10 nodes)
 	c22MaxRefDepth = 24
 	c22MinCU       = 1 // lower end of the allowed range (x/spec/types/spec.go: minCU); the upper end is the MaxCU param read at run time
@@ -1032,11 +1032,11 @@ func init() {
 	AddOp("c22_propose", (*Sim).opC22Propose)
 	AddOp("c22_expand", (*Sim).opC22Expand)
 	simrt.Register("C22", &simrt.PropSpec{Fn: runC22, NonTrivial: c22NonTrivial,
-		Rule:    "generated-input comparison inside chain histories: tape-generated import graphs over <= 6 generated specs plus the world's base specs (single specs with random imports, chains incl. child-before-parent order, diamonds, 2- and 3-cycles, self import, unknown import, modifications of stored parents that toggle a collection / change an API / rewire imports so that a cycle may close through a child, children that override an imported API by name in the same collection key; 4 collection keys incl. an add-on with intra-spec inheritance, disabled collections and APIs, extensions, parse directives, CU values at min-1/min/max-1/max/max+1/huge) are (a) submitted through the real spec-add proposal handler in an atomic transaction between the other operations of the mixed workload and (b) expanded directly with Keeper.ExpandSpec. Each input is first expanded through DoExpandSpec with a counting spec look-up (termination budget), then 4 times in the same process (results must be byte-identical), and compared with an independent recursive reference expansion. Only the interleaving of proposals with the rest of the history (parents modified under stored children, epochs, staking on the base specs) is simulation; the oracle itself is input/output comparison. Non-trivial = >=2 accepted and >=1 rejected proposals and at least one inherited API checked; distinct = (op,outcome,fault) sequence hash",
+		Rule:    "generated-input comparison inside chain histories: tape-generated import graphs over <= 6 generated specs plus the world's base specs (single specs with random imports, chains incl. child-before-parent order, diamonds, 2- and 3-cycles, self import, unknown import, modifications of stored parents that toggle a collection / change an API / rewire imports so that a cycle may close through a child, children that override an imported API by name in the same collection key; 4 collection keys incl. an add-on with intra-spec inheritance, disabled collections and APIs, extensions, parse directives, CU values at min-1/min/max-1/max/max+1/huge) are (a) submitted through the real spec-add proposal handler in an atomic transaction between the other operations of the mixed workload and (b) expanded directly with Keeper.ExpandSpec. Each input is first expanded through DoExpandSpec with a counting spec look-up (termination budget), then 8 times in the same process (results must be byte-identical), and compared with an independent recursive reference expansion. Only the interleaving of proposals with the rest of the history (parents modified under stored children, epochs, staking on the base specs) is simulation; the oracle itself is input/output comparison. Non-trivial = >=2 accepted and >=1 rejected proposals and at least one inherited API checked; distinct = (op,outcome,fault) sequence hash",
 		Real:    append(append([]string{}, chainReal...), "x/spec proposal handler (handleSpecProposal: SetSpec, ValidateSpec, RefreshSpec of every stored spec) via testutil/keeper.SimulateSpecAddProposal", "x/spec Keeper.ExpandSpec / GetExpandedSpec and types.DoExpandSpec (with a counting look-up function for the termination budget)"),
 		Stubbed: chainStub,
 		Assume: append(append([]string{}, chainAssume...),
-			"same-result-on-every-run is checked by repeating each expansion 4 times in one process (Go randomises map iteration per range statement) and by running each proposal on two throw-away cache contexts before the real one; no instrumented map-order replicas",
+			"same-result-on-every-run is checked by repeating each expansion 8 times in one process (Go randomises map iteration per range statement) and by running each proposal on two throw-away cache contexts before the real one; no instrumented map-order replicas",
 			"inputs are legal: collection keys are unique inside one spec and API names are unique inside one collection (the proposal's ValidateBasic requires the latter)",
 			"the allowed CU range is [1, MaxCU param]; exposed = enabled API in an enabled collection of the expanded spec",
 			"an API that the reference does not require may be present if it equals some definition in the import closure (lava keeps disabled APIs of an imported collection as disabled, and add-on collections pull APIs from sibling collections)",
